@@ -37,17 +37,26 @@ def para(rx):
 
 
 dst = os.path.join(V, "seeded", pid + os.environ.get("SEED_TAG", ""))
-shutil.rmtree(dst, ignore_errors=True)
-os.makedirs(dst)
+if os.path.abspath(sd).startswith(os.path.join(V, "seeded") + os.sep):
+    dst = os.path.abspath(sd)  # refreshing a stored seed in place
+old_meta = {}
+if os.path.exists(os.path.join(dst, "meta.json")):
+    old_meta = json.load(open(os.path.join(dst, "meta.json")))
 last = os.path.join(V, "out", "last-seed.patch")  # the change as seedcheck applied it to the current HEAD of /repo
-shutil.copy(last if os.path.exists(last) and os.path.getsize(last) > 0 else os.path.join(sd, "patch.diff"), os.path.join(dst, "patch.diff"))
-if os.path.isdir(os.path.join(sd, "demo")):
-    shutil.copytree(os.path.join(sd, "demo"), os.path.join(dst, "demo"))
-if notes:
-    open(os.path.join(dst, "notes.md"), "w").write(notes)
+if dst != os.path.abspath(sd):
+    shutil.rmtree(dst, ignore_errors=True)
+    os.makedirs(dst)
+    if os.path.isdir(os.path.join(sd, "demo")):
+        shutil.copytree(os.path.join(sd, "demo"), os.path.join(dst, "demo"))
+    if notes:
+        open(os.path.join(dst, "notes.md"), "w").write(notes)
+if os.path.exists(last) and os.path.getsize(last) > 0:
+    shutil.copy(last, os.path.join(dst, "patch.diff"))
+elif dst != os.path.abspath(sd):
+    shutil.copy(os.path.join(sd, "patch.diff"), os.path.join(dst, "patch.diff"))
 stat = subprocess.run(["git", "apply", "--stat", os.path.join(sd, "patch.diff")], capture_output=True, text=True, cwd="/repo").stdout.strip().splitlines()
 meta = {
-    "property": pid,
+    "property": pid[:3],
     "written_by": "independent sub-agent given only the property text and a scratch worktree of /repo",
     "title": notes.splitlines()[0].lstrip("# ").strip() if notes else "",
     "files_changed": [l.split("|")[0].strip() for l in stat[:-1]],
@@ -63,5 +72,7 @@ meta = {
     ],
     "checks": results,
 }
+if old_meta.get("why_missed"):
+    meta["why_missed"] = old_meta["why_missed"]
 json.dump(meta, open(os.path.join(dst, "meta.json"), "w"), indent=1)
 print("KEPT", dst, [(r["check"], r["result"], r["tier"]) for r in results])
